@@ -1,2 +1,207 @@
-// stub created by the lead so that the workspace always loads; replace it with the check
-fn main() {}
+//! C06 — a signature is accepted only for the exact RRset, key and time window.
+//!
+//! Seam: `DnssecDnsHandle::with_trust_anchor(TableUpstream, anchors).lookup(..)`; the upstream
+//! serves raw response bytes (decoded by hickory's real decoder); the validator clock is the
+//! virtual wall clock (`SimProvider::Timer`), the validation-cache clock is the hooked monotonic
+//! clock. Smallest chain: the answer and one DNSKEY sub-query (zone key = trust anchor).
+//!
+//! Space (E-ENUM + short histories): base cases {A x1, A x2, TXT, MX, NS, CNAME, wildcard A} x
+//! {ED25519, ECDSAP256SHA256, RSASHA256} x key layouts {single key, KSK+ZSK, KSK+2 ZSK, KSK+3
+//! equal-tag ZSKs}; per base: EVERY single-bit flip of both responses, the single-field
+//! replacements / re-made RRSIGs / DNSKEY-set edits of `gen::field_replacements`, the clock grid of
+//! `gen::clock_grid` (incl. u32 wrap and RFC 1982 edge lengths), and all op sequences of a fixed
+//! length over {validate(4 worlds), validate via clone, advance, jump to 5 instants} on one handle.
+//!
+//! Oracle: `refpred` (only-if predicate on the mutated bytes, evaluated at the time of each
+//! validate) + "TTL of a Secure record <= remaining signature life".
+
+mod gen;
+mod refpred;
+mod scen;
+
+use std::sync::atomic::{AtomicBool, Ordering};
+
+use serde_json::json;
+use vcore::Ctx;
+
+use gen::{Base, FlipBlock, HistoryBlock};
+use scen::Scenario;
+
+enum Block {
+    Flip(FlipBlock),
+    List(Vec<Scenario>),
+    History(HistoryBlock),
+}
+
+impl Block {
+    fn count(&self) -> u64 {
+        match self {
+            Block::Flip(f) => f.count(),
+            Block::List(l) => l.len() as u64,
+            Block::History(h) => h.count(),
+        }
+    }
+}
+
+fn main() {
+    let ctx = Ctx::from_args("C06", "exploration");
+    let nondet = AtomicBool::new(false);
+
+    if let Some((_key, case)) = ctx.replay_case() {
+        let Some(sc) = Scenario::from_json(&case) else { vcore::machinery_exit("replay file does not hold a C06 scenario") };
+        let rt = vsim::rt();
+        ctx.with_local(|l| {
+            let j = scen::run(&sc, &rt, l, &nondet);
+            eprintln!("replayed: {} violation(s), outcomes {:?}", j.violations.len(), j.outcomes);
+        });
+        ctx.finish(false);
+    }
+
+    let thorough = !ctx.quick();
+    ctx.set_rule(
+        "alphabet: 7 RRset kinds x 3 algorithms x key layouts (63 base cases), each signed by hickory's own signer; per base \
+         EVERY single-bit flip of the answer response and of the DNSKEY response (whole message), ~150 single-field \
+         replacements / re-made RRSIGs (type covered, labels 0..n+1, original TTL, key tag, algorithm, signer name, other \
+         keys: other ZSK, no-ZONE key, revoked key, injected attacker key, sibling-zone key) / records added-removed / \
+         received TTLs / DNSKEY-set edits, a clock grid (now = inception/expiration -2..+2, midpoints, +-2^31; windows \
+         plain, across the u32 wrap, lengths 0,1,2^31-1,2^31,2^31+1) applied to the answer RRSIG and to the DNSKEY RRSIG, \
+         and all op sequences of length 4 (quick) / 5 (thorough) over {validate x 4 worlds, validate via a clone of the \
+         handle, advance 1 s, jump to t0+99/100/101/301/1001} on one shared handle. Oracle: only-if acceptance predicate \
+         (12 clauses, refpred.rs) on the mutated bytes with vref::sigref + ring at the time of EACH validate; TTL of Secure \
+         records <= expiration - now. distinct_nontrivial = cases where the reference rejects with exactly ONE failing \
+         clause (they tell the reference from the predicate without that clause).",
+    );
+    ctx.assume("ring's Ed25519/ECDSA/RSA verification and vref::sigref (RFC 4034 6.2/6.3, 4035 5.3.2 signed data, appendix B key tag, RFC 1982) are the reference");
+    ctx.assume("the 'signer name encloses the owner' requirement is not part of C06's statement: sibling-signer cases are enumerated, logged as obs and judged under C07");
+    ctx.assume("RFC 1982 comparisons at distance exactly 2^31 are undefined: the reference accepts both answers there");
+    ctx.assume("TTL clauses judged: remaining signature lifetime only (statement); TTL above original/received TTL is logged as obs");
+
+    // ---- bases
+    let mut bases: Vec<Base> = vec![];
+    for kind in gen::rrset_kinds() {
+        for alg in gen::algs() {
+            for layout in gen::layouts_for(alg) {
+                bases.push(gen::base(kind, alg, layout));
+            }
+        }
+    }
+    ctx.set("base_cases", json!(bases.len()));
+
+    // ---- vacuity: every honest base case must be Secure on hickory and allowed by the reference
+    {
+        let rt = vsim::rt();
+        ctx.with_local(|l| {
+            for b in &bases {
+                let w = gen::wide(gen::T0);
+                let sc = b.single("honest", "vacuity guard".into(), gen::T0, &b.honest(w, w));
+                let j = scen::run(&sc, &rt, l, &nondet);
+                if j.secure_groups == 0 || j.allowed_groups == 0 || !j.violations.is_empty() {
+                    ctx.machinery_failure(&format!(
+                        "honest base case {} is not Secure/allowed (secure={} allowed={} violations={:?} outcomes={:?})",
+                        b.name, j.secure_groups, j.allowed_groups, j.violations, j.outcomes
+                    ));
+                }
+            }
+        });
+    }
+
+    // ---- blocks
+    let mut blocks: Vec<Block> = vec![];
+    let build = std::sync::Mutex::new(Vec::<(usize, Vec<Block>)>::new());
+    ctx.par_run(bases.len() as u64, 1, |i, _l| {
+        let b = &bases[i as usize];
+        let mut v = vec![];
+        v.push(Block::Flip(FlipBlock::new(b)));
+        v.push(Block::List(gen::field_replacements(b)));
+        v.push(Block::List(gen::clock_grid(b, thorough)));
+        build.lock().unwrap().push((i as usize, v));
+    });
+    let mut built = build.into_inner().unwrap();
+    built.sort_by_key(|x| x.0);
+    for (_, v) in built {
+        blocks.extend(v);
+    }
+    // histories: single key in z. (both DNSKEY-RRSIG configurations), KSK+ZSK in the root zone,
+    // and in the thorough tier also the other algorithms and the wildcard answer
+    let depth = if thorough { 5 } else { 4 };
+    let mut hist: Vec<(&str, hickory_proto::dnssec::Algorithm, &str, bool)> = vec![
+        ("A1", hickory_proto::dnssec::Algorithm::ED25519, "L1", false),
+        ("A1", hickory_proto::dnssec::Algorithm::ED25519, "L2", true),
+    ];
+    if thorough {
+        hist.push(("A1", hickory_proto::dnssec::Algorithm::ED25519, "L1", true));
+        hist.push(("A1", hickory_proto::dnssec::Algorithm::ED25519, "L2", false));
+        hist.push(("A2", hickory_proto::dnssec::Algorithm::ECDSAP256SHA256, "L1", false));
+        hist.push(("WILDA", hickory_proto::dnssec::Algorithm::ED25519, "L1", false));
+    }
+    for (kind, alg, layout, narrow) in hist {
+        blocks.push(Block::History(HistoryBlock::new(&gen::base(kind, alg, layout), depth, narrow)));
+    }
+
+    let mut starts = vec![];
+    let mut total = 0u64;
+    let (mut n_flip, mut n_field, mut n_hist) = (0u64, 0u64, 0u64);
+    for b in &blocks {
+        starts.push(total);
+        total += b.count();
+        match b {
+            Block::Flip(_) => n_flip += b.count(),
+            Block::List(_) => n_field += b.count(),
+            Block::History(_) => n_hist += b.count(),
+        }
+    }
+    ctx.set("space", json!(total));
+    ctx.set("scenarios_bitflip", json!(n_flip));
+    ctx.set("scenarios_field_and_clock", json!(n_field));
+    ctx.set("scenarios_history", json!(n_hist));
+    ctx.set("history_depth", json!(depth));
+
+    // permute block-local order only through the seed (enumeration order, never the set)
+    let seed = ctx.seed;
+    ctx.par_run_init(
+        total,
+        64,
+        |_| vsim::rt(),
+        |i, l, rt| {
+            let i = if seed == 0 { i } else { (i + seed) % total };
+            let bi = match starts.binary_search(&i) {
+                Ok(x) => x,
+                Err(x) => x - 1,
+            };
+            let off = i - starts[bi];
+            let owned;
+            let sc: &Scenario = match &blocks[bi] {
+                Block::Flip(f) => {
+                    owned = f.scenario(off);
+                    &owned
+                }
+                Block::List(v) => &v[off as usize],
+                Block::History(h) => {
+                    owned = h.scenario(off);
+                    &owned
+                }
+            };
+            scen::run(sc, rt, l, &nondet);
+            if i % 50_021 == 0 {
+                l.sample(json!(sc.desc));
+            }
+        },
+    );
+
+    if nondet.load(Ordering::SeqCst) {
+        ctx.machinery_failure("a violating scenario gave different observations when executed twice");
+    }
+    // vacuity: every clause of the reference predicate must have been the ONLY failing clause of
+    // some executed case (otherwise the space cannot tell the predicate from a weaker one)
+    for c in refpred::CLAUSES {
+        if ctx.outcome_count(&format!("distinguishes:{c}")) == 0 {
+            ctx.machinery_failure(&format!("vacuous: no case isolates clause '{c}'"));
+        }
+    }
+    let mut dist = serde_json::Map::new();
+    for c in refpred::CLAUSES {
+        dist.insert(c.to_string(), json!(ctx.outcome_count(&format!("distinguishes:{c}"))));
+    }
+    ctx.set("cases_isolating_each_clause", serde_json::Value::Object(dist));
+    ctx.finish(true);
+}
